@@ -67,7 +67,11 @@ impl LoopCampaign {
     // one run in eight is a burst: a long history that arrives in a few big batches, so a single
     // readiness notification covers tens of events
     let bursty = rng.chance(1, 8);
-    ho.len = if bursty { if thorough { rng.range(20, 150) } else { rng.range(20, 70) } } else if thorough { rng.range(2, 40) } else { rng.range(2, 18) };
+    // one run in 200 is a marathon (hundreds of events, mostly back to back): counters, capacities
+    // and every-N-th-time clean-ups in the loop or the mapper
+    let marathon = rng.chance(1, 200);
+    let bursty = bursty || marathon;
+    ho.len = if marathon { if thorough { rng.range(150, 900) } else { rng.range(150, 450) } } else if bursty { if thorough { rng.range(20, 150) } else { rng.range(20, 70) } } else if thorough { rng.range(2, 40) } else { rng.range(2, 18) };
     ho.resets = false;
     let mut st = GenStats::default();
     let ops = gen_ops(&mut rng, &layout, &ho, &mut st);
